@@ -172,7 +172,7 @@ class Native:
             env = dict(ENV, VERIF_REPLAY=inp, VERIF_REPLAY_OUT=outp)
             try:
                 r = subprocess.run([self.bin, "-test.run", "^TestVerifReplay$", "-test.count=1", "-test.timeout=0"], cwd=REPO, env=env,
-                                   capture_output=True, text=True, timeout=len(pending) * time_s + 120)
+                                   capture_output=True, text=True, timeout=min(len(pending) * time_s + 120, 7200))
                 crashed = r.returncode != 0
                 tail = (r.stdout + r.stderr)[-1500:]
             except subprocess.TimeoutExpired:
